@@ -191,7 +191,11 @@ func (e *Engine) step(st *State, fr *Frame, in ssa.Instruction, onReturn func(*S
 		for _, b := range x.Bindings {
 			bind = append(bind, e.val(st, fr, b))
 		}
-		fr.regs[x] = VFunc{Fn: x.Fn.(*ssa.Function), Bind: bind}
+		// the closure keeps its static identity for direct calls and gets an identity as a value
+		// (so that it can be stored in maps / passed where only an opaque function value is known)
+		cid := e.fresh("closure", IntS)
+		st.assume(Gt(cid, Zero))
+		fr.regs[x] = VFunc{Fn: x.Fn.(*ssa.Function), Bind: bind, Id: cid, Sig: x.Fn.(*ssa.Function).Signature}
 	case *ssa.TypeAssert:
 		fr.regs[x] = e.execTypeAssert(st, fr, x)
 	case *ssa.Range:
